@@ -534,7 +534,12 @@ def rule_logmerge_shape(ctx, rounding=True):
             if not (isinstance(n, ast.Assign) or isinstance(n, ast.AugAssign)):
                 continue
             full = resolve_temps(k.node, n.value, allow_subscript=True, pure_only=False, in_loops=True)
-            for sub in ast.walk(full):
+            try:
+                from .model import expand_expr
+                full2 = expand_expr(ctx.model, k, n.value)       # one-line helper kernels expanded as well
+            except (AnalysisError, RecursionError):
+                full2 = None
+            for sub in list(ast.walk(full)) + (list(ast.walk(full2)) if full2 is not None else []):
                 if not (isinstance(sub, ast.BinOp) and isinstance(sub.op, ast.Div)):
                     continue
                 t = nf(sub)
